@@ -3,7 +3,9 @@
 Components
   normalize  exact: `normalize_for_identity` vs `LogJson.normalize`; Lean monitor `normOkB`; idempotence.
   append     exact: real `append_jsonl` calls in an arbitrary writer schedule on a real file vs
-             `LogFrame.exec`; Lean monitor `wellFramedB` on the real file; per-writer order; JSON round trip.
+             `LogFrame.exec`; Lean monitor `wellFramedB` on the real file; per-writer order; JSON round trip;
+             raw-write monitor (`rawWritesOkB` per opened handle + `allMergesFramedB`: every interleaving of two
+             appends' raw write(2) chunks parses into complete lines) — also on rewrite and the staged flush.
   rewrite    exact: real `rewrite_jsonl` vs `LogFrame.rewritePayload`; Lean `wellFramedB`; records preserved.
   stager     exact: real `LogStager` / `default_key_for` driven by the batch driver's drain-flush-retry
              loop vs `LogStager.runBatch`; Lean monitors (sorted flushes, lossless, per-file order).
@@ -40,7 +42,9 @@ RULE = ("seeded structured generators per component (records over volatile/non-v
         "with gaps and every crash point); a case is non-trivial when it hits at least one branch tag other than 'default' "
         "(e.g. backpressure flush, yield/non-yield markers, crash state, gap); distinct by canonical JSON of the case")
 ASSUMPTIONS = [
-    "one append = one write(2) on an O_APPEND descriptor and is atomic w.r.t. other appenders (POSIX; stressed in thorough, not proved)",
+    "a single write(2) on an O_APPEND descriptor is atomic w.r.t. other appenders (POSIX; stressed in thorough, not proved); that one "
+    "append IS a single write(2) of one complete frame is no longer assumed but monitored deterministically (raw FileIO.write calls "
+    "recorded under the real buffered handle, records from 1 B to 100 kB around io.DEFAULT_BUFFER_SIZE)",
     "json.dumps emits no raw LF/CR (control characters are escaped); sampled with control chars, U+2028/2029, astral and NUL",
     "os.replace / os.remove are atomic single steps; a crash happens only between two of them (abstract FS: generation index -> content)",
     "record keys are str; `durations_ms` keys are printable strings without quotes/backslashes (only matters for the byte estimate)",
@@ -56,7 +60,9 @@ CLAIM = {
              "two `_IDENTITY_LOGS` copies agree (decide over regenerated tables); every stager drain is sorted by (turn, stage_ord, slice, seq, "
              "path) and is a permutation of the buffer, the drain-flush-retry loop is lossless for every limit, and under key-monotone arrivals "
              "per file the per-file sequence equals the arrival sequence for EVERY byte limit (hence sorted and limit-independent); constant "
-             "(turn, slice) batches — what the batch driver produces — are key-monotone; the compaction rewrite parses back into exactly the "
+             "(turn, slice) batches — what the batch driver produces — are key-monotone; if every raw-write chunk ends at a line end then "
+             "every interleaving of writers' chunks parses into exactly the chunks' lines (C16_chunks_complete_parse, C16_merges_complete; "
+             "split-write witness C16_split_write_witness); the compaction rewrite parses back into exactly the "
              "canonical lines; `rotate_one` shifts generations 0..N-1 to 1..N losing only the previous path.N, and EVERY crash prefix of its "
              "step list is the initial state or a 'generations m..N-1 moved up, slot m vacated' state: nothing but the oldest is lost, age "
              "order is preserved, nothing is invented. Tied to the code by exact differential execution on real files in scratch directories."),
@@ -74,8 +80,6 @@ CLAIM = {
     "technique": "Lean 4 proofs (induction over schedules / arrival lists / step lists, permutation + sortedness lemmas, decide over regenerated tables) + exact correspondence on real files with crash injection",
     "design_ref": "DESIGN.md §4 C16, §5 row 16",
 }
-DRIVER_MODULES = ["HLogs"]
-TABLES = ["logs"]
 MODELLED = {
     "clematis/engine/util/io_logging.py": ["normalize_for_identity", "LogStager", "default_key_for", "LogKey", "StagedRecord"],
     "clematis/io/log.py": ["_append_jsonl_unbuffered", "append_jsonl", "rewrite_jsonl"],
@@ -158,6 +162,79 @@ class with_logdir:
                 os.environ.pop(k, None)
             else:
                 os.environ[k] = v
+
+
+class record_raw_writes:
+    """Observe what reaches the OS: while active, `open` (in the namespaces of the modules that open
+    log files, plus builtins/io for refactors through pathlib) returns the REAL handle, whose raw
+    `FileIO.write` — the write(2) call under Python's buffering — is recorded per opened handle.
+    `groups` = [{"path", "chunks": [bytes per raw write]}] in open order."""
+    MODULES = ("clematis.io.log", "clematis.io.atomic")
+
+    def __enter__(self):
+        import builtins
+        import importlib
+        import io
+        self.groups: List[dict] = []
+        groups = self.groups
+        real = builtins.open
+
+        def rec_open(file, mode="r", *a, **kw):
+            f = real(file, mode, *a, **kw)
+            if isinstance(mode, str) and any(c in mode for c in "wax+") and isinstance(file, (str, bytes, os.PathLike)):
+                g = {"path": os.fspath(file), "chunks": []}
+                raw = getattr(f, "buffer", f)
+                raw = getattr(raw, "raw", raw)
+                try:
+                    orig = raw.write
+
+                    def w(b, _o=orig, _g=g):
+                        _g["chunks"].append(bytes(b))
+                        return _o(b)
+                    raw.write = w
+                    groups.append(g)
+                except Exception:
+                    pass
+            return f
+        self._saved = []
+        for name in self.MODULES:
+            m = importlib.import_module(name)
+            self._saved.append((m, "open" in m.__dict__, m.__dict__.get("open")))
+            m.open = rec_open
+        self._b, self._io = builtins.open, io.open
+        builtins.open = rec_open
+        io.open = rec_open
+        return self
+
+    def __exit__(self, *a):
+        import builtins
+        import io
+        builtins.open, io.open = self._b, self._io
+        for m, had, old in self._saved:
+            if had:
+                m.open = old
+            else:
+                try:
+                    del m.open
+                except AttributeError:
+                    pass
+
+
+def l1(b: bytes) -> str:
+    """bytes as latin-1 text (one code point per byte) for the raw-write monitor route."""
+    return b.decode("latin-1")
+
+
+PAD_SIZES = [1, 100, 4000, 8100, 8180, 8192, 8193, 9000, 20000, 100000]
+PAD_CHARS = ["x", "é", "日", "\u2028"]
+
+
+def add_pad(rng: random.Random, rec: Dict[str, Any]) -> Dict[str, Any]:
+    """records below and ABOVE io.DEFAULT_BUFFER_SIZE: a buffered handle passes large writes through,
+    so only these show how many write(2) calls one append really makes."""
+    rec = dict(rec)
+    rec["pad"] = rng.choice(PAD_CHARS) * rng.choice(PAD_SIZES)
+    return rec
 
 
 _SCRATCH: Optional[Path] = None
@@ -552,6 +629,13 @@ class AppendComp(FrozenComp):
         big = rng.random() < 0.03
         qs = [[gen_jsonable_record(rng, name, big=big and w == 0 and k == 0) for k in range(rng.randrange(0, 4))]
               for w in range(nw)]
+        if rng.random() < 0.35:
+            for _ in range(rng.choice([1, 1, 2])):
+                w = rng.randrange(nw)
+                if not qs[w]:
+                    qs[w].append(gen_jsonable_record(rng, name))
+                k = rng.randrange(len(qs[w]))
+                qs[w][k] = add_pad(rng, qs[w][k])
         total = sum(len(q) for q in qs)
         sched = [rng.randrange(nw + 1) for _ in range(total + rng.randrange(0, 4))]
         if rng.random() < 0.7:  # make it complete
@@ -568,8 +652,9 @@ class AppendComp(FrozenComp):
         pend = [list(q) for q in case["qs"]]
         trace = []
         via = case.get("via", "direct")
+        rec_raw = record_raw_writes()
         try:
-            with with_ci(case["ci_env"]), with_logdir(d):
+            with with_ci(case["ci_env"]), with_logdir(d), rec_raw:
                 if via == "direct":
                     for w in case["sched"]:
                         if w < len(pend) and pend[w]:
@@ -597,7 +682,8 @@ class AppendComp(FrozenComp):
             others = sorted(x.name for x in d.iterdir() if x.name != case["name"])
         finally:
             shutil.rmtree(d, ignore_errors=True)
-        return {"file": data.decode("utf-8"), "trace": trace, "others": others}
+        raw = [[l1(c) for c in g["chunks"]] for g in rec_raw.groups if os.path.basename(g["path"]) == case["name"]]
+        return {"file": data.decode("utf-8"), "trace": trace, "others": others, "raw": raw}
 
     def _lines(self, case) -> List[List[str]]:
         flat = [r for q in case["qs"] for r in q]
@@ -628,7 +714,17 @@ class AppendComp(FrozenComp):
         from clematis.engine.util.io_logging import normalize_for_identity
         with with_ci(case["ci_env"]):
             lines = [json.dumps(normalize_for_identity(case["name"], rec), ensure_ascii=False) for _, rec in impl_out["trace"]]
-        return [("one_complete_lf_line_per_record", {"c": "c16.wellframed", "file": impl_out["file"], "lines": lines})]
+        rq = [("one_complete_lf_line_per_record", {"c": "c16.wellframed", "file": impl_out["file"], "lines": lines})]
+        raw = impl_out.get("raw", [])
+        if sum(len(c) for g in raw for c in g) == len(impl_out["file"].encode("utf-8")):  # the writes were observable
+            frames = [l1((l + "\n").encode("utf-8")) for l in lines]
+            if len(raw) == len(frames):
+                rq.append(("one_append_is_one_raw_write_of_one_frame",
+                           {"c": "c16.rawwrites", "groups": raw, "expect": frames, "merge": True}))
+            else:  # handles shared between appends: chunk boundaries must still be frame boundaries
+                rq.append(("raw_write_boundaries_are_frame_boundaries",
+                           {"c": "c16.rawwrites", "groups": [[c for g in raw for c in g]], "expect": ["".join(frames)], "merge": False}))
+        return rq
 
     def monitors_(self, case, impl_out):
         from clematis.engine.util.io_logging import normalize_for_identity
@@ -666,6 +762,13 @@ class AppendComp(FrozenComp):
             t.add("big_line")
         if case.get("via", "direct") != "direct" and n:
             t.add(case["via"])
+        sizes = [sum(len(c) for c in g) for g in impl_out.get("raw", [])]
+        if any(z > 8192 for z in sizes):
+            t.add("frame_above_buffer")
+        if any(8000 <= z <= 8400 for z in sizes):
+            t.add("frame_at_buffer_boundary")
+        if impl_out.get("trace") and not sizes:
+            t.add("raw_unobserved")
         if any(any(c in json.dumps(r, ensure_ascii=False) for c in ("\u2028", "\\n", "\\r", "\\u0000")) for _, r in impl_out.get("trace", [])):
             t.add("control_chars")
         return sorted(t) or ["default"]
@@ -704,6 +807,9 @@ class RewriteComp(FrozenComp):
                     break
                 except Exception:
                     continue
+        if recs and rng.random() < 0.2:
+            k = rng.randrange(len(recs))
+            recs[k] = add_pad(rng, recs[k])
         return {"ci_env": rng.choice(CI_VALUES), "name": name, "recs": recs,
                 "pre": rng.choice([None, "", "old line\n", "torn"])}
 
@@ -713,13 +819,15 @@ class RewriteComp(FrozenComp):
         try:
             if case["pre"] is not None:
                 (d / case["name"]).write_text(case["pre"], encoding="utf-8")
-            with with_ci(case["ci_env"]), with_logdir(d):
+            rec_raw = record_raw_writes()
+            with with_ci(case["ci_env"]), with_logdir(d), rec_raw:
                 rewrite_jsonl(case["name"], [dict(r) for r in case["recs"]])
             data = (d / case["name"]).read_bytes()
             others = sorted(x.name for x in d.iterdir() if x.name != case["name"])
         finally:
             shutil.rmtree(d, ignore_errors=True)
-        return {"file": data.decode("utf-8"), "others": others}
+        raw = [[l1(c) for c in g["chunks"]] for g in rec_raw.groups if os.path.basename(g["path"]).startswith(case["name"])]
+        return {"file": data.decode("utf-8"), "others": others, "raw": raw}
 
     def request_(self, case: dict) -> dict:
         ns = model_normalize_many(case["ci_env"], case["name"], case["recs"])
@@ -738,7 +846,12 @@ class RewriteComp(FrozenComp):
         from clematis.engine.util.io_logging import normalize_for_identity
         with with_ci(case["ci_env"]):
             lines = [canon_dumps(normalize_for_identity(case["name"], r)) for r in case["recs"]]
-        return [("rewrite_well_framed", {"c": "c16.wellframed", "file": impl_out["file"], "lines": lines})]
+        rq = [("rewrite_well_framed", {"c": "c16.wellframed", "file": impl_out["file"], "lines": lines})]
+        chunks = [c for g in impl_out.get("raw", []) for c in g]
+        if sum(len(c) for c in chunks) == len(impl_out["file"].encode("utf-8")) and chunks:
+            rq.append(("rewrite_raw_write_boundaries_are_frame_boundaries",
+                       {"c": "c16.rawwrites", "groups": [chunks], "expect": [l1(impl_out["file"].encode("utf-8"))], "merge": False}))
+        return rq
 
     def monitors_(self, case, impl_out):
         from clematis.engine.util.io_logging import normalize_for_identity
@@ -977,6 +1090,9 @@ class BatchComp(FrozenComp):
             for _ in range(rng.randrange(0, 5)):
                 p = rng.choice(["t1.jsonl", "t2.jsonl", "t4.jsonl", "turn.jsonl", "t3_plan.jsonl", "health.jsonl"])
                 logs.append([p, gen_jsonable_record(rng, p)])
+            if logs and rng.random() < 0.25:
+                k = rng.randrange(len(logs))
+                logs[k] = [logs[k][0], add_pad(rng, logs[k][1])]
             bufs.append({"agent": f"ag{a}", "logs": logs})
         ests = [est_of(r) for b in bufs for _, r in b["logs"]] or [10]
         limit = rng.choice([max(ests) + 200, 2 * max(ests) + 200, sum(ests) + 1000, 32 * 1024 * 1024])
@@ -1020,7 +1136,8 @@ class BatchComp(FrozenComp):
             orch._run_turn_compute = compute
             orch.apply_changes = apply_changes
             orch.enable_staging = lambda: IOL.enable_staging(case["limit"])
-            with with_ci(case["ci_env"]), with_logdir(d):
+            rec_raw = record_raw_writes()
+            with with_ci(case["ci_env"]), with_logdir(d), rec_raw:
                 par._run_agents_parallel_batch(ctx, state, [(b["agent"], "hi") for b in case["bufs"]])
             files = {p.name: p.read_text(encoding="utf-8") for p in sorted(d.iterdir())}
         finally:
@@ -1034,7 +1151,19 @@ class BatchComp(FrozenComp):
                         pass
             IOL.disable_staging()
             shutil.rmtree(d, ignore_errors=True)
-        return {"files": files}
+        raw = [[os.path.basename(g["path"]), [l1(c) for c in g["chunks"]]] for g in rec_raw.groups
+               if os.path.dirname(g["path"]) == str(d.resolve()) or os.path.dirname(g["path"]) == str(d)]
+        return {"files": files, "raw": raw}
+
+    def monitor_requests_(self, case, impl_out):
+        raw = impl_out.get("raw", [])
+        total = sum(len(c) for _, g in raw for c in g)
+        if not raw or total != sum(len(v.encode("utf-8")) for v in impl_out["files"].values()):
+            return []
+        # staged flush: every opened handle must put exactly one frame, in one raw write, into its file
+        groups = [g for _, g in raw]
+        expect = ["".join(g) for g in groups]
+        return [("staged_flush_raw_writes_are_frames", {"c": "c16.rawwrites", "groups": groups, "expect": expect, "merge": True})]
 
     def request_(self, case: dict) -> dict:
         arr = []
@@ -1078,6 +1207,13 @@ class BatchComp(FrozenComp):
                 continue
             res.append(("batch_file_is_arrival_sequence", got == exp and (raw == "" or raw.endswith("\n")),
                         f"{p}: got={json.dumps(got)[:200]} expected={json.dumps(exp)[:200]}"))
+        groups = impl_out.get("raw", [])
+        if groups and sum(len(c) for _, g in groups for c in g) == sum(len(v.encode("utf-8")) for v in impl_out["files"].values()):
+            one = all("".join(g).count("\n") == 1 and "".join(g).endswith("\n") for _, g in groups)
+            res.append(("staged_flush_one_frame_per_open", one, "an opened handle wrote something other than one LF-terminated line"))
+            for p in sorted(impl_out["files"]):
+                cat = "".join("".join(g) for n, g in groups if n == p).encode("latin-1")
+                res.append(("staged_flush_writes_add_up_to_file", cat == impl_out["files"][p].encode("utf-8"), p))
         return res
 
     def tags_(self, case, impl_out):
@@ -1087,6 +1223,8 @@ class BatchComp(FrozenComp):
             t.add("backpressure_flush")
         if len(case["bufs"]) > 1:
             t.add("multi_agent")
+        if any(sum(len(c) for c in g) > 8192 for _, g in impl_out.get("raw", [])):
+            t.add("frame_above_buffer")
         return sorted(t) or ["default"]
 
     def shrink_(self, case):
